@@ -162,6 +162,10 @@ func toApplyForm(args [][]byte, v2 bool) (applyReq, bool) {
 			}
 		}
 	case "plset":
+		// server/merge.go getHandlersForKeys keeps complete key/value pairs only
+		if len(out)%2 == 0 {
+			out = out[:len(out)-1]
+		}
 		for i := 1; i < len(out); i += 2 {
 			if !cut(i) {
 				return applyReq{}, false
